@@ -231,6 +231,19 @@ int main(int argc, char **argv) {
            progs, bad5, bad17, jsonEscape(why5).c_str(), jsonEscape(bad5 && first5.size() < 4000000 ? first5 : std::string()).c_str(), jsonEscape(why17).c_str(), jsonEscape(bad17 ? first17 : std::string()).c_str());
     return 0;
   }
+  // emit <file.S> <out.bin> <out.lst>: image and listing through the in-process pipeline (loadBuffer), for comparison with
+  // what the hexasm executable (hexasm.cpp: openFile, argument handling, emitBin / emitProgramText) produces for the same file
+  if (argc >= 5 && !strcmp(argv[1], "emit")) {
+    std::ifstream f(argv[2]); std::stringstream ss; ss << f.rdbuf();
+    try {
+      Lexer lexer; Parser parser(lexer); lexer.loadBuffer(ss.str());
+      auto program = parser.parseProgram();
+      CodeGen codeGen(program);
+      codeGen.emitBin(argv[3]);
+      std::ofstream l(argv[4]); codeGen.emitProgramText(l);
+    } catch (std::exception &e) { printf("{\"ok\": false, \"error\": \"%s\"}\n", jsonEscape(e.what()).c_str()); return 1; }
+    printf("{\"ok\": true}\n"); return 0;
+  }
   if (argc >= 3 && !strcmp(argv[1], "replay")) {
     std::ifstream f(argv[2]); std::stringstream ss; ss << f.rdbuf();
     Verdict v = validate(ss.str());
